@@ -958,9 +958,10 @@ def report_b(ctx, summ, stats):
         if key.get("fail") == "shape" and (res.get("offender") or {}).get("owner") == "output":
             stats["forward_value_differs_outside_C07"] += 1      # the entry point's result has another shape: forward defect
             continue
-        if key.get("fail") in ("value", "none") and res.get("forward_agrees") is False and not key.get("has_chol_upper"):
-            # the scalar itself differs from the dense computation: a forward defect (properties C01 / C04 / C05 / C06),
-            # its gradient is the gradient of another function.  (CholLinearOperator(upper=True) is kept: DESIGN 3 C07)
+        if key.get("fail") in ("value", "none") and res.get("forward_agrees") is False:
+            # the scalar itself differs from the dense computation: a forward defect (properties C01 / C03 / C04 / C05 / C06),
+            # its gradient is the gradient of another function.  (Until d5282d4 / ff21076 CholLinearOperator(upper=True) was
+            # kept here on purpose; what still differs on HEAD for it is indexing, C03-chol-upper-orientation.)
             stats["forward_value_differs_outside_C07"] += 1
             continue
         try:
@@ -982,6 +983,42 @@ def report_b(ctx, summ, stats):
         rp.update(layer="autograd", kind="property-fails-on-implementation", fail=res.get("fail"), error=res.get("error"),
                   offender=res.get("offender"), detail=res.get("detail"), shrunk_from=res.get("shrunk_from"))
         ctx.violation(rp, key=key, no_input=(key.get("fail") == "harness-error"))
+
+
+# ------------------------------------------------------------------------------------------ always-run corpus
+
+def replay_known(ctx, stats):
+    """the witness of every listed (status known) finding of C07 is replayed on every run, both tiers, independent of the
+    seed and of which cells the grid rotates to: still failing -> goes through the normal reporting (its structural key
+    matches the entry: KNOWN-FINDING line; a different failure of the same case is a VIOLATION); repaired -> nothing"""
+    n = {"replayed": 0, "still_failing": 0}
+    for ent in common.load_known():
+        if ent.get("property") != PROP or ent.get("status") != "known":
+            continue
+        rp = ent.get("replay") or {}
+        try:
+            if rp.get("layer") == "autograd" and "expr" in rp:
+                n["replayed"] += 1
+                res = P.replay_case(rp)
+                if res.get("status") == "fail":
+                    n["still_failing"] += 1
+                    res.setdefault("replay", rp)
+                    report_b(ctx, {"results": [res]}, stats)
+            elif rp.get("layer") == "bilinear" and "expr" in rp:
+                n["replayed"] += 1
+                r = observe_one(L.reshare(json.loads(json.dumps(rp["expr"]))), rp["rg_mask"], rp["U"], rp["V"])
+                if "skip" in r:
+                    continue
+                r.update(e=rp["expr"], cell=rp.get("cell") or {"uv": "same"}, mask=rp["rg_mask"])
+                r["orc"] = oracle_grads(r["tree"], r["rep"], r["U"], r["V"])
+                r["verdict"] = judge(r["rep"], r["obs"], r["orc"], r["tree"])
+                if r["verdict"]:
+                    n["still_failing"] += 1
+                    report_a(ctx, [r], stats)
+        except Exception:  # noqa   (a witness that cannot be rebuilt on this tree is not a violation)
+            stats["corpus_errors"] = stats.get("corpus_errors", 0) + 1
+    stats["known_finding_witnesses_replayed"] = n["replayed"]
+    stats["known_finding_witnesses_still_failing"] = n["still_failing"]
 
 
 # ------------------------------------------------------------------------------------------ run / replay
@@ -1007,6 +1044,7 @@ def run(ctx):
         return ctx.violations > before
     ok = common.proof_stage(ctx, on_fail)
 
+    replay_known(ctx, stats)
     cell_list = cells_a(ctx.quick)
     cases, skipped = make_cases_a(ctx, rng, cell_list)
     report_a(ctx, cases, stats)
